@@ -112,3 +112,8 @@ def run(eng, tier):
         'trusted_base': ['serde decoding', 'Iterator::sum/map/filter_map/collect semantics', 'interpreter loop unrolling (3 iterations; per-iteration obligations)'],
         'not_decided': ['serde decoding itself'], 'assumptions': [],
     }
+
+import probes as _pb
+PROBES = [
+    _pb.drop_facts('migrate', None, '<0.19.1'),
+]
